@@ -82,6 +82,31 @@ def close(a, b, tol=1e-12):
     return abs(fa - fb) <= tol * max(abs(fa), abs(fb)) + 1e-300
 
 
+def boundary_indices(c, pv):
+    """indices of the p-values whose comparison with a rejection threshold is decided by float rounding in this
+    run: p (an exact rational here) is within 1e-12 of a threshold that the real code holds as a FLOAT different
+    from p.  Thresholds the code holds exactly (Bonferroni with a rational alpha: `alpha / int`) and float
+    thresholds that equal p exactly are NOT ambiguous."""
+    m = len(pv)
+    alpha = c["alpha"]
+    thr = []
+    h = sum(1 / i for i in range(1, m + 1))
+    for k in range(1, m + 1):
+        if c["kind"] == "fdr":
+            coef = (m * h if c["dep"] else m) / k            # as `_Benjamini.adjust`: a float
+            thr.append(alpha / coef)
+        elif c["method"] == "bonferroni":
+            thr.append(alpha / (m - k + 1))                  # exact
+        else:
+            thr.append(1 - (1 - alpha) ** (1 / (m - k + 1)))
+    out = set()
+    for j, p in enumerate(pv):
+        for t in thr:
+            if abs(float(p) - float(t)) <= 1e-12 and F(t) != F(p):
+                out.add(j)
+    return out
+
+
 def run_cases(chk: Check, n, with_model=True):
     import tea_tasting as tt
     rng = chk.rng
@@ -147,42 +172,61 @@ def run_cases(chk: Check, n, with_model=True):
             continue
         real = [(out[ek][nm]["pvalue_adj"], out[ek][nm]["alpha_adj"], out[ek][nm]["null_rejected"],
                  out[ek][nm]["pvalue"]) for ek, nm in got_keys]
-        for which, line in (("spec", so), ("model", mo)):
-            if line is None:
-                continue
+        def mismatch(line, pvals, tol):
+            """first field in which the real output differs from a driver line (None: agrees)"""
             toks = line.split()
-            sidak = sidak_expected([float(x[3]) for x in real], float(c["alpha"]), c["dep"]) \
+            sidak = sidak_expected([float(x) for x in pvals], float(c["alpha"]), c["dep"]) \
                 if c["method"] == "sidak" else None
             exp = [(toks[3 * j], toks[3 * j + 1], int(toks[3 * j + 2])) for j in range(len(real))]
             for j, ((pa, aa, rej, p), (epa, eaa, erej)) in enumerate(zip(real, exp)):
                 epa = F(epa)
-                sidak_alpha = c["method"] == "sidak"
-                msg = None
-                if not close(pa, epa):
-                    msg = ("pvalue_adj", pa, epa)
-                if not sidak_alpha:
+                if not close(pa, epa, tol):
+                    return j, ("pvalue_adj", pa, epa)
+                if c["method"] != "sidak":
                     eaa = F(eaa)
-                    if not close(aa, eaa):
-                        msg = msg or ("alpha_adj", aa, eaa)
-                    margin = abs(float(p) - float(eaa))
-                    if margin > 1e-12 and int(rej) != erej:
-                        msg = msg or ("null_rejected", rej, erej)
+                    if not close(aa, eaa, tol):
+                        return j, ("alpha_adj", aa, eaa)
+                    if abs(float(p) - float(eaa)) > 1e-12 and int(rej) != erej:
+                        return j, ("null_rejected", rej, erej)
                 else:
                     # Sidak's alpha_adj = 1-(1-alpha)**(1/coef) is a real power: the Q driver cannot evaluate it;
-                    # the float value of the textbook rule is computed by `sidak_expected` below
+                    # the float value of the textbook rule is computed by `sidak_expected`
                     ea, er_ = sidak[j]
-                    if not close(aa, ea, 1e-12):
-                        msg = msg or ("alpha_adj", aa, ea)
+                    if not close(aa, ea, max(tol, 1e-12)):
+                        return j, ("alpha_adj", aa, ea)
                     if abs(float(p) - ea) > 1e-12 and int(rej) != er_:
-                        msg = msg or ("null_rejected", rej, er_)
-                if msg:
-                    rep = dict(input=inp, hypothesis=str(got_keys[j]), field=msg[0], observed=str(msg[1]),
-                               expected=str(msg[2]))
-                    if which == "spec":
-                        chk.fail(f"{c['proc']}: {msg[0]} differs from the documented procedure", rep)
-                    else:
-                        chk.disagree(f"{c['proc']}: model vs real {msg[0]}", rep)
-                    break
+                        return j, ("null_rejected", rej, er_)
+            return None
+
+        pv = [x[3] for x in real]
+        amb = boundary_indices(c, pv)
+        for which, line, drv in (("spec", so, "DriverSpec.lean"), ("model", mo, "DriverMult.lean")):
+            if line is None:
+                continue
+            bad = mismatch(line, pv, 1e-12)
+            if bad is not None and amb:
+                # The thresholds of the real code are floats (`m / k` is a float division) while this run feeds exact
+                # rationals: a p-value EXACTLY on a threshold is decided by the last bit.  Both resolutions of each
+                # such tie are legitimate; the output must agree with one of them for the whole family.
+                chk.branch("boundary-ambiguous")
+                for sign in (-1, 1):
+                    pert = [min(F(1), max(F(0), p + sign * (abs(p) * F(1, 10**10) + F(1, 10**15)))) if j in amb else p
+                            for j, p in enumerate(pv)]
+                    head = (f"mult {c['proc']} {rs(c['alpha'])} " if which == "spec" else
+                            (f"fdr {rs(c['alpha'])} {int(c['dep'])} " if c["kind"] == "fdr"
+                             else f"fwer {rs(c['alpha'])} {int(c['dep'])} {c['method']} "))
+                    alt_line = Driver(drv).ask([head + f"{len(pert)} " + " ".join(rs(p) for p in pert)])[0]
+                    if mismatch(alt_line, pert, 1e-8) is None:
+                        bad = None
+                        break
+            if bad is not None:
+                j, msg = bad
+                rep = dict(input=inp, hypothesis=str(got_keys[j]), field=msg[0], observed=str(msg[1]),
+                           expected=str(msg[2]), boundary_pvalues=[str(pv[i]) for i in sorted(amb)])
+                if which == "spec":
+                    chk.fail(f"{c['proc']}: {msg[0]} differs from the documented procedure", rep)
+                else:
+                    chk.disagree(f"{c['proc']}: model vs real {msg[0]}", rep)
         # internal relations on the real output
         for (pa, aa, rej, p), k in zip(real, got_keys):
             if int(rej) != int(p <= aa):
